@@ -231,6 +231,62 @@ static void s5(int seed, int nthreads, int iters)
   for (auto& th : ts) th.join();
 }
 
+// S6: a mock object is destroyed by one thread while another thread releases the expectations that were placed on it
+// (one still on the active list, one already saturated); the releasing thread does not touch the mock itself.
+static void s6(int seed, int nthreads, int iters)
+{
+  std::vector<std::thread> ts;
+  for (int t = 0; t < nthreads; ++t) {
+    ts.emplace_back([&, t] {
+      std::mt19937 r(static_cast<unsigned>(seed * 17 + t));
+      for (int i = 0; i < iters; ++i) {
+        auto* m = new M;
+        std::unique_ptr<trompeloeil::expectation> e1, e2;
+        unsigned shape = r() % 4;
+        if (shape & 1) e1 = NAMED_ALLOW_CALL(*m, f(_)).RETURN(0);
+        else e1 = NAMED_REQUIRE_CALL(*m, f(_)).RETURN(0);
+        if (shape & 2) e2 = NAMED_REQUIRE_CALL(*m, g(1));
+        try { m->f(1); if (e2) m->g(1); } catch (Reported const&) {}
+        unsigned d1 = r() % 40, d2 = r() % 40;
+        std::thread killer([m, d1] { for (volatile unsigned k = 0; k < d1 * 20; ++k) {} delete m; });
+        for (volatile unsigned k = 0; k < d2 * 20; ++k) {}
+        if (r() % 2) { e1.reset(); e2.reset(); } else { e2.reset(); e1.reset(); }
+        killer.join();
+      }
+    });
+  }
+  for (auto& th : ts) th.join();
+}
+
+// S7: a deathwatched object dies in one thread while its creator polls is_satisfied()/is_saturated() of the requirement,
+// and a shared sequence is polled by a third party
+static void s7(int seed, int nthreads, int iters)
+{
+  std::vector<std::thread> ts;
+  for (int t = 0; t < nthreads; ++t) {
+    ts.emplace_back([&, t] {
+      std::mt19937 r(static_cast<unsigned>(seed * 19 + t));
+      for (int i = 0; i < iters; ++i) {
+        trompeloeil::sequence seq;
+        M m;
+        auto e = NAMED_ALLOW_CALL(m, g(_)).IN_SEQUENCE(seq);
+        auto* o = new DW;
+        auto d = NAMED_REQUIRE_DESTRUCTION(*o).IN_SEQUENCE(seq);
+        std::atomic<bool> gone{false};
+        std::thread killer([o, &gone] { delete o; gone = true; });
+        int spins = 0;
+        while (!d->is_satisfied() && spins < 1000000) { (void)d->is_saturated(); (void)seq.is_completed(); ++spins; }
+        killer.join();
+        if (!d->is_satisfied() || !d->is_saturated()) ++fatal_reports;
+        try { m.g(1); ++fatal_reports; } catch (Reported const&) {}     // the ALLOW step was passed: the call is out of sequence
+        d.reset();
+        e.reset();
+      }
+    });
+  }
+  for (auto& th : ts) th.join();
+}
+
 // L1 (hooked build): operations on ONE shared mock function logged with their critical-section tickets, for sequential replay
 static void l1(int seed, int nthreads, int iters)
 {
@@ -296,6 +352,8 @@ int main(int argc, char** argv)
   else if (sc == "s3") s3(seed, nthreads, iters);
   else if (sc == "s4") s4(seed, nthreads, iters);
   else if (sc == "s5") s5(seed, nthreads, iters);
+  else if (sc == "s6") s6(seed, nthreads, iters);
+  else if (sc == "s7") s7(seed, nthreads, iters);
   else if (sc == "l1") l1(seed, nthreads, iters);
   else { std::printf("unknown scenario\n"); return 2; }
 #ifdef TROMPELOEIL_VERIF
